@@ -156,6 +156,6 @@ func runFin(c FinCase, rec *h.Rec) error {
 	return nil
 }
 
-var propFin = h.NewProp("TestPropMismatchedFinalisationRejected", h.Budget{Quick: 600, Thorough: 8000}, genFin, runFin)
+var propFin = h.NewProp("TestPropMismatchedFinalisationRejected", h.Budget{Quick: 400, Thorough: 5000}, genFin, runFin)
 
 func TestPropMismatchedFinalisationRejected(t *testing.T) { propFin.Check(t) }
